@@ -38,7 +38,8 @@ ASSUMPTIONS = [
     "loops=N means N repeats after the first pass (documented); a show whose only step has a positive duration is "
     "only played with loops=0 (docstring and code disagree, statement silent)",
     "sync_ms: start at the next multiple of the interval; a request exactly on a multiple may start then or one "
-    "interval later",
+    "interval later; the effective interval is the request's own sync_ms when it has one (an explicit 0 = start "
+    "immediately) and the machine-wide `mpf: default_show_sync_ms` (non-zero in 3 of 8 cases) only when it has none",
     "resume: the next step may run immediately (MPF) or the interrupted step may run out its remaining time; "
     "resume of a show that is not paused may do nothing or run the next step now - but must keep ONE schedule",
     "advance of a paused show may or may not resume automatic stepping; step_back from the first step may go to "
@@ -71,7 +72,7 @@ TIERS = {
 _MIN_Q = {"step_time": 80000, "step_index": 80000, "step_effects": 200000, "light_start_time": 100000,
           "events": 50000, "cleanup_light": 20000, "cleanup_instances": 200000, "no_step_after_stop": 100000,
           "completion": 150, "routing": 8000, "final_state": 5000, "immediate_step": 50000, "start_time": 150,
-          "stop_explained": 1500}
+          "stop_explained": 1500, "sync_effective": 4000, "sync_zero_on_grid": 150}
 MIN_EVALS = {"quick": _MIN_Q, "thorough": {k: v * 10 for k, v in _MIN_Q.items()}}
 SHRINK_KEYS = ["ops"]
 
@@ -161,7 +162,7 @@ def _gen_variant(rng, vid, show, scope, key, force=None):
          "speed": rng.choice(speeds),
          "loops": 0 if single_timed else rng.choice([0, 0, 0, 1, 1, 2, 3, -1, -1]),
          "start_step": rng.choice([1, 1, 1, 1, 2, -1, -2, nsteps, 0]),
-         "sync_ms": rng.choice([0, 0, 0, 250, 100]),
+         "sync_ms": rng.choice([None, None, 0, 0, 250, 100]),     # None: not written; 0: explicit `sync_ms: 0`
          "priority": rng.choice([0, 0, 5, 60]),
          "manual": rng.random() < 0.12,
          "start_running": rng.random() >= 0.08,
@@ -175,7 +176,8 @@ def _gen_variant(rng, vid, show, scope, key, force=None):
 
 def gen_case(rng, tier, index):
     long_run = index % 10 == 9
-    case = {"latency": rng.random() < 0.5 or long_run, "long": long_run}
+    case = {"latency": rng.random() < 0.5 or long_run, "long": long_run,
+            "default_sync_ms": rng.choice([0, 0, 0, 0, 0, 400, 150, 250])}
     if long_run:
         show = _gen_show(rng, "s0", short=True)
         for st in show["steps"]:
@@ -329,7 +331,7 @@ def _player_cfg(variants, scope):
             continue
         e = {"key": v["key"], "speed": v["speed"], "loops": v["loops"], "start_step": v["start_step"],
              "priority": v["priority"], "manual_advance": bool(v["manual"]), "start_running": bool(v["start_running"])}
-        if v["sync_ms"]:
+        if v.get("sync_ms") is not None:
             e["sync_ms"] = v["sync_ms"]
         if v["tokens"]:
             e["show_tokens"] = dict(v["tokens"])
@@ -353,6 +355,7 @@ def _machine_cfg(case):
         "coils": {"c0": {"number": 0, "default_pulse_ms": 20, "allow_enable": True},
                   "c1": {"number": 1, "default_pulse_ms": 20}},
         "show_player": _player_cfg(case["variants"], "g"),
+        "mpf": {"default_show_sync_ms": int(case.get("default_sync_ms") or 0)},
     }
 
 
@@ -444,7 +447,8 @@ def _run(case, lat, restore):
     with VMachine(_machine_cfg(case), modes={"m1": _mode_cfg(case)}, shows=show_files) as vm:
         m = vm.machine
         loop = vm.loop
-        model = M.Model(shows, report, MODE_PRIORITY)
+        default_sync = int(case.get("default_sync_ms") or 0)
+        model = M.Model(shows, report, MODE_PRIORITY, default_sync)
 
         def stamp():
             return loop._time, loop.time()
@@ -646,10 +650,11 @@ def _run(case, lat, restore):
             inst = model.inst[ctx]
             exp_prio = v["priority"] + (MODE_PRIORITY if v["scope"] == "m" else 0)
             exp_start = v["start_step"] if v["start_step"] else 1
-            got = {"show": inst.show, "speed": inst.speed, "loops": inst.cfg["loops"], "sync_ms": inst.sync_ms,
+            got = {"show": inst.show, "speed": inst.speed, "loops": inst.cfg["loops"], "sync_ms": int(inst.cfg["sync_ms"] or 0),
                    "manual": bool(inst.cfg["manual_advance"]), "priority": inst.priority, "tokens": inst.tokens,
                    "start_step": inst.start_step, "start_running": inst.start_running}
-            exp = {"show": v["show"], "speed": float(v["speed"]), "loops": v["loops"], "sync_ms": v["sync_ms"],
+            eff_sync = v["sync_ms"] if v.get("sync_ms") is not None else default_sync
+            exp = {"show": v["show"], "speed": float(v["speed"]), "loops": v["loops"], "sync_ms": eff_sync,
                    "manual": bool(v["manual"]), "priority": exp_prio, "tokens": dict(v["tokens"]),
                    "start_step": exp_start, "start_running": bool(v["start_running"])}
             clauses["routing"] += 1
@@ -665,9 +670,11 @@ def _run(case, lat, restore):
             prev_live = live(prev)
             begin_op("play", [prev] if prev_live else [])
             obs["plays"] += 1
+            model.play_hint = {"sync_ms": v.get("sync_ms")}
             m.events.post("p_%d" % vid)
             settle()
             new = end_op()
+            model.play_hint = None
             top = [e[3] for e in new if e[0] == "create" and model.inst[e[3]].parent is None]
             clauses["routing"] += 1
             if not prev_live and len(top) != 1:
@@ -856,11 +863,11 @@ def _run(case, lat, restore):
         clauses[k] = clauses.get(k, 0) + n
     for k, n in model.obs.items():
         obs[k] = n
-    vshape = "|".join("%s:%d:%s%s%s" % (v["show"], v["loops"], "y" if v["sync_ms"] else "n",
+    vshape = "|".join("%s:%d:%s%s%s" % (v["show"], v["loops"], "u" if v.get("sync_ms") is None else "y" if v["sync_ms"] else "0",
                                        "m" if v["manual"] else "a", v["scope"]) for v in case["variants"])
     nontrivial = model.obs["timer_steps"] > 0 and obs["stopped_instances"] > 0 and clauses["cleanup_light"] > 0
     # unknown / unexplained signatures first
     known_first = (M.SIG_D16, M.SIG_FORK)
     viol.sort(key=lambda v: v["sig"] in known_first)
-    return {"violations": viol, "clauses": clauses, "shape": ("L" if case.get("long") else "") + "".join(shape) +
-            "#" + vshape, "nontrivial": nontrivial, "obs": obs}
+    return {"violations": viol, "clauses": clauses, "shape": ("L" if case.get("long") else "") +
+            ("G" if case.get("default_sync_ms") else "") + "".join(shape) + "#" + vshape, "nontrivial": nontrivial, "obs": obs}
